@@ -92,8 +92,9 @@ def gen_case(rng, tier, idx):
     for name in rules:
         rng.choice(cfg["simulation"]["sessions"][:1] if rng.random() < 0.7 else cfg["simulation"]["sessions"]) \
             .setdefault("events", []).append(name)
-    from ..runnerdrive import add_first_attempts
+    from ..runnerdrive import add_first_attempts, split_extra_targets
 
+    split_extra_targets(rng, cfg, 0.15)
     add_first_attempts(rng, cfg, 0.2)
     return {"drive": "runner", "seed": rng.randrange(1 << 31), "config": cfg, "profile": "pricelimit"}
 
@@ -120,7 +121,7 @@ class C15Monitor:
             start += s["iterationSteps"]
         for name, e in cfg.items():
             if isinstance(e, dict) and e.get("class") == "PriceLimitRule" and name in registered_from:
-                for t in e["targetMarkets"]:
+                for t in list(e["targetMarkets"]) + list(e.get("extraTargets", [])):
                     if e.get("enabled", True):
                         if t in self.rule_of:
                             res.count("class/market_under_two_rules")
